@@ -520,6 +520,28 @@ Proof.
   - destruct (graph_dir c) as [g|]; [|contradiction]. destruct Ir as [<-|[]]. now apply G.
 Qed.
 
+(* whatever the project file and the command line say, the effective exclude_dir holds the
+   effective output directory *)
+Lemma effective_excl_has o base : In o (effective_excl o base).
+Proof.
+  unfold effective_excl. destruct (existsb (path_eqb o) base) eqn:E.
+  - apply existsb_exists in E as (x & I & Q). apply path_eqb_eq in Q. now subst.
+  - apply in_or_app. right. now left.
+Qed.
+
+Theorem out_excluded ln dir pkg r :
+  In (out (normalise_cfg ln dir pkg r)) (excl (normalise_cfg ln dir pkg r)).
+Proof. apply effective_excl_has. Qed.
+
+Theorem discovered_sources_kept_cfg ln dir pkg r b p cands :
+  links_clean ln -> let c := normalise_cfg ln dir pkg r in
+  forall x, discovered c x = true -> x <> out c ->
+  (forall g, graph_dir c = Some g -> ~ under g x) ->
+  forall (f : fs) k n, f x = Some n -> run (firstn k (ford_ops b pkg c p cands)) f x = Some n.
+Proof.
+  intros L c. apply discovered_sources_kept; [now apply normalise_cfg_out_clean | apply out_excluded].
+Qed.
+
 (* ------------------------------------------------------------------ former counterexamples, now regression inputs *)
 
 Definition confinedb (rs : list path) (ops : list op) : bool :=
